@@ -9,9 +9,11 @@ package main
 // converters forget is caught even if the table were to forget it too.
 
 import (
+	"encoding/base64"
 	"encoding/json"
 	"fmt"
 	"reflect"
+	"regexp"
 	"sort"
 	"strings"
 	"testing"
@@ -128,6 +130,7 @@ func c20BuildClient(c c20MsgCase) (*ClientComMessage, error) {
 	if err := json.Unmarshal(c.Msg, &m); err != nil {
 		return nil, err
 	}
+	c20ExpandStruct(reflect.ValueOf(&m).Elem()) // bytes that are not UTF-8 inside 'any' values
 	c20FixClient(&m)
 	return &m, nil
 }
@@ -137,6 +140,7 @@ func c20BuildServer(c c20MsgCase) (*ServerComMessage, error) {
 	if err := json.Unmarshal(c.Msg, &m); err != nil {
 		return nil, err
 	}
+	c20ExpandStruct(reflect.ValueOf(&m).Elem()) // bytes that are not UTF-8 inside 'any' values
 	if c.ParamsStr && m.Ctrl != nil {
 		if pm, ok := m.Ctrl.Params.(map[string]any); ok {
 			sm := map[string]string{}
@@ -216,6 +220,8 @@ func c20PassServer(m *ServerComMessage) (ps c20Pass, fd *c20Finding) {
 	return
 }
 
+var c20NotJSONRe = regexp.MustCompile(`!notjson:([A-Za-z0-9+/=]+)`)
+
 // c20DiffFindings turns tree differences into findings attributed to one converter.
 func c20DiffFindings(conv string, want, got map[string]any, what string) []c20Finding {
 	var ds []c20D
@@ -234,7 +240,13 @@ func c20DiffFindings(conv string, want, got map[string]any, what string) []c20Fi
 				sig = conv + ":time-ms-read-as-ns"
 			}
 		}
-		out = append(out, c20Finding{sig, fmt.Sprintf("%s: field %s: %s has %s, %s", conv, d.Path, what, d.Want, "output has "+d.Got)})
+		note := ""
+		if m := c20NotJSONRe.FindStringSubmatch(d.Got); m != nil {
+			if raw, err := base64.StdEncoding.DecodeString(m[1]); err == nil {
+				note = fmt.Sprintf(" (the bytes %q in the protobuf member are not JSON: a gRPC client cannot decode what a JSON client receives)", raw)
+			}
+		}
+		out = append(out, c20Finding{sig, fmt.Sprintf("%s: field %s: %s has %s, %s%s", conv, d.Path, what, d.Want, "output has "+d.Got, note)})
 	}
 	return out
 }
@@ -290,6 +302,20 @@ func c20MakeExec(r *kit.Run) func(c20MsgCase) kit.Outcome {
 			}
 		}
 		o.Classes = append(o.Classes, c.Side+":"+member)
+		{
+			var built any
+			if c.Side == "client" {
+				built, _ = c20BuildClient(c)
+			} else {
+				built, _ = c20BuildServer(c)
+			}
+			sc := map[string]bool{}
+			c20StrClasses(reflect.ValueOf(built), sc)
+			for k := range sc {
+				o.Classes = append(o.Classes, k)
+			}
+			sort.Strings(o.Classes[1:])
+		}
 		if c.Subs >= 3 {
 			o.Classes = append(o.Classes, "subs>=3")
 		}
@@ -542,6 +568,20 @@ type c20PbCase struct {
 	Subs int    `json:"subs"`
 }
 
+// JSON texts a gRPC client may put into a bytes member that no Go encoder would produce: escaped
+// surrogate pairs, lone surrogates (decoded as U+FFFD), escaped controls, optional escapes, white space.
+var c20JSONSpellings = []string{`"\ud83d\ude00"`, `"\ud800"`, `"x\udc00\ud800y"`, `"\u0000\u001f\u007f"`, `"a\/b"`, `"\u2028\u2029\ufeff"`, `"\b\f\n\r\t"`,
+	`{"a":"\u0007"}`, `["\u001b[0m", "\u00e9"]`, ` "sp" `, `"\u0022\u005c"`, "\"\x7f\u0085\U000e0001\U0010ffff\""}
+
+// c20GenJSONText draws the JSON text of a protobuf bytes member.
+func c20GenJSONText(rt *rapid.T, depth int) string {
+	if rapid.IntRange(0, 9).Draw(rt, "jtext") == 0 {
+		return rapid.SampledFrom(c20JSONSpellings).Draw(rt, "jspelling")
+	}
+	s, _ := c20CanonJSON(c20ExpandAny(c20GenJSON(rt, depth)))
+	return s
+}
+
 func c20GenPbValue(rt *rapid.T, f c20F, fd protoreflect.FieldDescriptor, path string) (protoreflect.Value, bool) {
 	switch f.kind {
 	case "s":
@@ -563,13 +603,11 @@ func c20GenPbValue(rt *rapid.T, f c20F, fd protoreflect.FieldDescriptor, path st
 		return protoreflect.ValueOfInt64(c20GenTime(rt).UnixMilli()), true
 	case "y":
 		if strings.HasSuffix(path, "payload") {
-			s, _ := c20CanonJSON(c20GenJSON(rt, 1))
-			return protoreflect.ValueOfBytes([]byte(s)), true
+			return protoreflect.ValueOfBytes([]byte(c20GenJSONText(rt, 1))), true
 		}
 		return protoreflect.ValueOfBytes(rapid.SliceOfN(rapid.Byte(), 1, 8).Draw(rt, "y")), true
 	case "j":
-		s, _ := c20CanonJSON(c20GenJSON(rt, 2))
-		return protoreflect.ValueOfBytes([]byte(s)), true
+		return protoreflect.ValueOfBytes([]byte(c20GenJSONText(rt, 2))), true
 	case "e":
 		vals := fd.Enum().Values()
 		for {
@@ -633,7 +671,7 @@ func c20GenPb(rt *rapid.T, m protoreflect.Message, path string, subs *int) {
 		case "jm":
 			mp := m.Mutable(fd).Map()
 			for k, v := range c20GenJSONMap(rt, 1, false) {
-				s, _ := c20CanonJSON(v)
+				s, _ := c20CanonJSON(c20ExpandAny(v))
 				mp.Set(protoreflect.ValueOfString(k).MapKey(), protoreflect.ValueOfBytes([]byte(s)))
 			}
 		case "seen.when":
